@@ -5,15 +5,16 @@
  "properties": {"C12": "contract", "C13": "contract", "C19": "safety"},
  "mode": "harness", "noreturn_macros": false, "replay": false,
  "variants": {"ident": ["-DV_KIND=TIDENT"], "string": ["-DV_KIND=TSTRINGLIT"], "punct": ["-DV_KIND=TSHLASSIGN"], "keyword": ["-DV_KIND=TWHILE"],
-              "newline": ["-DV_KIND=TNEWLINE"], "eof": ["-DV_KIND=TEOF"], "other": ["-DV_KIND=TOTHER"]},
- "kind": "bounded", "unwind": 76, "unwind_failure": "violation",
+              "newline": ["-DV_KIND=TNEWLINE"], "eof": ["-DV_KIND=TEOF"]},
+ "kind": "bounded", "unwind": 20, "unwind_failure": "violation",
  "bound": "one token per variant kind; spellings of 3 symbolic characters; space flag symbolic",
+ "cflags": ["-DLITCAP=8"],
  "stubs": ["base.c"],
  "cbmc_flags": ["--drop-unused-functions"],
  "timeout": 200,
  "expects": ["assertion_verif"],
  "assumes": ["fputc/fputs are the output model of out_model.h (ghost stdout text)",
-             "EXPECTED TO FAIL on the pinned tree in variant other (finding): a stray character (TOTHER, C11 6.4p1 'each non-white-space character that cannot be one of the above' IS a preprocessing token) cannot be printed by -E: tokenprint() has no case for it, tokstr[TOTHER] is NULL -> fatal('cannot print token 3'), exit status 1",
+             "stray-character tokens are TOKEN.tokenprint.other's (finding): a stray character (TOTHER, C11 6.4p1 'each non-white-space character that cannot be one of the above' IS a preprocessing token) cannot be printed by -E: tokenprint() has no case for it, tokstr[TOTHER] is NULL -> fatal('cannot print token 3'), exit status 1",
              "harness mode"]
 }
 */
@@ -31,6 +32,7 @@ harness(void)
 
 	t.kind = V_KIND;
 	t.lit = spelled(V_KIND) ? mk_spelling(in_chars, 3) : 0;
+	__CPROVER_assume(t.lit == 0 || t.lit[0] != ' ');
 	t.space = in_space; t.hide = false;
 	t.loc.file = "f.c"; t.loc.line = 1; t.loc.col = 1;
 	__CPROVER_assume(stdout != stderr);     /* two distinct streams (extern objects of the C library) */
